@@ -195,16 +195,17 @@ def check_package(case):
     st = c10.package(names)
     for r in st.desc['resources']:
         r['schema'].pop('primaryKey', None)      # c10's rows repeat k on purpose
-    label = 'load(%s with resources %r, resources=%r)' % (form, names, sel)
+    label = 'load(%s with resources %r, resources=%r%s)' % (form, names, sel, ', limit_rows=%d' % case['limit'] if case.get('limit') else '')
     want = c10.spec_select(sel, names)
     with core.scratch_dir() as d:
         try:
+            kw = {'limit_rows': case['limit']} if case.get('limit') else {}
             if form == 'tuple':
-                step = core.dataflows.load((copy.deepcopy(st.desc), [iter(copy.deepcopy(r)) for r in st.rows]), resources=sel)
+                step = core.dataflows.load((copy.deepcopy(st.desc), [iter(copy.deepcopy(r)) for r in st.rows]), resources=sel, **kw)
             else:
                 core.Flow(core.from_state(st), core.dataflows.set_type('bad', type='string', resources=None, on_error=core.dataflows.base.schema_validator.clear),
                           core.dataflows.dump_to_path(os.path.join(d, 'pkg'))).process()
-                step = core.dataflows.load(os.path.join(d, 'pkg', 'datapackage.json'), resources=sel)
+                step = core.dataflows.load(os.path.join(d, 'pkg', 'datapackage.json'), resources=sel, **kw)
             out = core.materialise(step, via='results_raw')
             got = ('ok', out)
         except core.CaseTimeout:
@@ -223,7 +224,10 @@ def check_package(case):
         viol.append(('package-selection/%s' % form, '%s: loaded %r, requested %r' % (label, out.names(), want)))
     else:
         for n, rows in zip(out.names(), out.rows):
-            if [r['id'] for r in rows] != [r['id'] for r in c10.res_rows(n)]:
+            exp_ids = [r['id'] for r in c10.res_rows(n)]
+            if case.get('limit'):
+                exp_ids = exp_ids[:case['limit']]        # limit_rows applies to every loaded resource
+            if [r['id'] for r in rows] != exp_ids:
                 viol.append(('package-rows/%s' % form, '%s: rows of %r differ' % (label, n)))
                 break
     return viol, 'ok' if not viol else 'violated', bool(want)
@@ -283,6 +287,9 @@ def cases(tier):
         for _, sel in c10.SELECTORS:
             for form in ('tuple', 'datapackage.json'):
                 out.append({'kind': 'package', 'names': names, 'sel': sel, 'form': form})
+                if sel is None or isinstance(sel, list) or sel == 'a.*':
+                    for lim in (1, 2):
+                        out.append({'kind': 'package', 'names': names, 'sel': sel, 'form': form, 'limit': lim})
     return out
 
 
